@@ -14,6 +14,7 @@ package transport
 //@ spec func invRaw(r *rawConn) bool = r != nil && r.Conn != nil
 
 //@ func NewTransport
+//@   params conn readSize writeSize
 //@   requires conn != nil
 //@   ensures both: implies(readSize > 0 && writeSize > 0, is(result, *bufConn) && invBuf(as(result, *bufConn)) && as(result, *bufConn).Conn == conn)
 //@   ensures ronly: implies(readSize > 0 && writeSize <= 0, is(result, *bufReadConn) && invBufR(as(result, *bufReadConn)) && as(result, *bufReadConn).Conn == conn)
@@ -22,76 +23,101 @@ package transport
 
 // ---- bufConn: sink = rw.Writer, source = rw.Reader
 //@ func (*bufConn).Write
+//@   params b p
+//@   results n err
 //@   requires invBuf(b)
 //@   ensures sink: nemitted() == 1 && evis(0, "(*bufio.Writer).Write") && evarg(0, 0) == b.rw.Writer && sameslice(evarg(0, 1), p)
 //@   ensures result: n == evres(0, 0) && err == evres(0, 1)
 //@ func (*bufConn).Writev
+//@   params b buffs
 //@   requires invBuf(b)
 //@   ensures sink: nemitted() == 1 && evis(0, "(*net.Buffers).WriteTo") && is(evarg(0, 1), *bufio.Writer) && as(evarg(0, 1), *bufio.Writer) == b.rw.Writer && at(0, sameslice(*evarg(0, 0), buffs))
 //@   ensures result: result0 == evres(0, 0) && result1 == evres(0, 1)
 //@ func (*bufConn).Flush
+//@   params b
 //@   inline
 //@   requires invBuf(b)
 //@   ensures sink: nemitted() == 1 && evis(0, "(*bufio.Writer).Flush") && evarg(0, 0) == b.rw.Writer
 //@   ensures result: result == evres(0, 0)
 //@ func (*bufConn).Read
+//@   params b p
+//@   results n err
 //@   requires invBuf(b)
 //@   ensures source: nemitted() == 1 && evis(0, "(*bufio.Reader).Read") && evarg(0, 0) == b.rw.Reader && sameslice(evarg(0, 1), p)
 //@   ensures result: n == evres(0, 0) && err == evres(0, 1)
 //@ func (*bufConn).Close
+//@   params b
 //@   requires invBuf(b)
 //@   ensures flush_then_close: nemitted() == 2 && evis(0, "(*bufio.Writer).Flush") && evarg(0, 0) == b.rw.Writer && evis(1, "net.Conn.Close") && evrecv(1) == b.Conn
 //@   ensures result: result == evres(1, 0)
 
 // ---- bufReadConn: sink = Conn (unbuffered), source = reader
 //@ func (*bufReadConn).Read
+//@   params br b
+//@   results n err
 //@   requires invBufR(br)
 //@   ensures source: nemitted() == 1 && evis(0, "(*bufio.Reader).Read") && evarg(0, 0) == br.reader && sameslice(evarg(0, 1), b)
 //@   ensures result: n == evres(0, 0) && err == evres(0, 1)
 //@ func (*bufReadConn).Write
+//@   params arg0 b
+//@   results n err
 //@   requires invBufR(recv)
 //@   ensures sink: nemitted() == 1 && evis(0, "net.Conn.Write") && evrecv(0) == recv.Conn && sameslice(evarg(0, 0), b)
 //@   ensures result: n == evres(0, 0) && err == evres(0, 1)
 //@ func (*bufReadConn).Writev
+//@   params br buffs
 //@   requires invBufR(br)
 //@   ensures sink: nemitted() == 1 && evis(0, "(*net.Buffers).WriteTo") && evarg(0, 1) == br.Conn && at(0, sameslice(*evarg(0, 0), buffs))
 //@   ensures result: result0 == evres(0, 0) && result1 == evres(0, 1)
 //@ func (*bufReadConn).Flush
+//@   params br
 //@   requires invBufR(br)
 //@   ensures nothing_buffered: nemitted() == 0 && result == nil
 
 // ---- bufWriteConn: sink = writer, source = Conn
 //@ func (*bufWriteConn).Write
+//@   params bw b
+//@   results n err
 //@   requires invBufW(bw)
 //@   ensures sink: nemitted() == 1 && evis(0, "(*bufio.Writer).Write") && evarg(0, 0) == bw.writer && sameslice(evarg(0, 1), b)
 //@   ensures result: n == evres(0, 0) && err == evres(0, 1)
 //@ func (*bufWriteConn).Writev
+//@   params bw buffs
 //@   requires invBufW(bw)
 //@   ensures sink: nemitted() == 1 && evis(0, "(*net.Buffers).WriteTo") && is(evarg(0, 1), *bufio.Writer) && as(evarg(0, 1), *bufio.Writer) == bw.writer && at(0, sameslice(*evarg(0, 0), buffs))
 //@   ensures result: result0 == evres(0, 0) && result1 == evres(0, 1)
 //@ func (*bufWriteConn).Flush
+//@   params bw
 //@   requires invBufW(bw)
 //@   ensures sink: nemitted() == 1 && evis(0, "(*bufio.Writer).Flush") && evarg(0, 0) == bw.writer
 //@   ensures result: result == evres(0, 0)
 //@ func (*bufWriteConn).Read
+//@   params arg0 b
+//@   results n err
 //@   requires invBufW(recv)
 //@   ensures source: nemitted() == 1 && evis(0, "net.Conn.Read") && evrecv(0) == recv.Conn && sameslice(evarg(0, 0), b)
 //@   ensures result: n == evres(0, 0) && err == evres(0, 1)
 
 // ---- rawConn: sink = source = Conn
 //@ func (*rawConn).Write
+//@   params arg0 b
+//@   results n err
 //@   requires invRaw(recv)
 //@   ensures sink: nemitted() == 1 && evis(0, "net.Conn.Write") && evrecv(0) == recv.Conn && sameslice(evarg(0, 0), b)
 //@   ensures result: n == evres(0, 0) && err == evres(0, 1)
 //@ func (*rawConn).Read
+//@   params arg0 b
+//@   results n err
 //@   requires invRaw(recv)
 //@   ensures source: nemitted() == 1 && evis(0, "net.Conn.Read") && evrecv(0) == recv.Conn && sameslice(evarg(0, 0), b)
 //@   ensures result: n == evres(0, 0) && err == evres(0, 1)
 //@ func (*rawConn).Writev
+//@   params r buffs
 //@   requires invRaw(r)
 //@   ensures sink: nemitted() == 1 && evis(0, "(*net.Buffers).WriteTo") && evarg(0, 1) == r.Conn && at(0, sameslice(*evarg(0, 0), buffs))
 //@   ensures result: result0 == evres(0, 0) && result1 == evres(0, 1)
 //@ func (*rawConn).Flush
+//@   params r
 //@   requires invRaw(r)
 //@   ensures nothing_buffered: nemitted() == 0 && result == nil
 
@@ -121,8 +147,10 @@ package transport
 //@ assume functype github.com/go-netty/go-netty/transport.Option
 //@   modifies Options.*
 //@ func withAddress
+//@   params address
 //@   ensures result != nil
 //@ func (*Options).Apply
+//@   params lo options
 //@   requires lo != nil
 //@   assumes non_nil_options: forall(i, 0, len(options), options[i] != nil)
 //@   may_panic true
@@ -131,6 +159,7 @@ package transport
 //@   loop 0 emits
 //@   loop 0 invariant -1 <= rangeindex && rangeindex < len(options)
 //@ func ParseOptions
+//@   params ctx url options
 //@   event
 //@   may_panic true
 //@   modifies Options.*
